@@ -603,6 +603,90 @@ func main() {
 				}
 			}
 		}})
+	// messages that look like the other (hex) arguments
+	var shaped []string
+	for _, pre := range []string{"0x", "0X", "0x0x", "0x0X", "x", "00", " 0x"} {
+		for _, body := range []string{"", "abc", "deadbeef", "0xabc", "00", "g", "0x"} {
+			shaped = append(shaped, pre+body)
+		}
+	}
+	ck.Domains = append(ck.Domains, &drv.Domain{Name: "message-shapes", Size: int64(len(shaped)) * 3, Chunk: 3,
+		Desc: "the message is TEXT, not hex: messages that start with 0x / 0X / 0x0x / look like hex digits (7 prefixes x 7 bodies), through XMSSVerify and DilithiumVerify: (0) the signature over the message verifies, (1) the signature over the message with its first two characters removed does not, (2) the signature over \"0x\"+message does not — wrapper == core in all three",
+		Run: func(c *drv.Ctx, lo, hi int64) {
+			k := xmss.NewXMSSFromSeed(seeds.Seed48(3, c.Seed), 4, xmss.SHAKE_128, common.SHA256_2X)
+			pk := k.GetPK()
+			ks := getD(c.Seed)
+			dpk := ks[0].d.GetPK()
+			for i := lo; i < hi; i++ {
+				c.At(i)
+				m := shaped[i/3]
+				signed := m
+				switch i % 3 {
+				case 1:
+					if len(m) >= 2 {
+						signed = m[2:]
+					}
+				case 2:
+					signed = "0x" + m
+				}
+				if k.GetIndex() >= 15 {
+					k = xmss.NewXMSSFromSeed(seeds.Seed48(3, c.Seed), 4, xmss.SHAKE_128, common.SHA256_2X)
+				}
+				sig, _ := k.Sign([]byte(signed))
+				core := outcomeBool(func() bool { return xmss.Verify([]byte(m), sig, pk) })
+				wr := outcomeBool(func() bool { return xmssjs.XMSSVerify(m, "0x"+hex.EncodeToString(sig), hex.EncodeToString(pk[:])) })
+				dsig, _ := ks[0].d.Sign([]byte(signed))
+				dcore := outcomeBool(func() bool { return dilithium.Verify([]byte(m), dsig, &dpk) })
+				dwr := outcomeBool(func() bool {
+					return dilithiumjs.DilithiumVerify([]byte(m), hex.EncodeToString(dsig[:]), "0x"+hex.EncodeToString(dpk[:]))
+				})
+				c.Eval(2)
+				c.Nontrivial(2)
+				c.Outcome(core + "/" + dcore)
+				if core != wr || (signed == m) != (core == "true") {
+					c.Fail(i, "xmss-message-shape", map[string]any{"message": fmt.Sprintf("%q", m), "signed_text": fmt.Sprintf("%q", signed), "core": core, "wrapper": wr})
+				}
+				if dcore != dwr || (signed == m) != (dcore == "true") {
+					c.Fail(i, "dilithium-message-shape", map[string]any{"message": fmt.Sprintf("%q", m), "signed_text": fmt.Sprintf("%q", signed), "core": dcore, "wrapper": dwr})
+				}
+			}
+		}})
+	// every height a wallet can realistically hold, through the string wrappers
+	wh := []uint8{4, 6, 8, 10}
+	ck.Domains = append(ck.Domains, &drv.Domain{Name: "wrapper-heights", Size: int64(len(wh)) * 3, Chunk: 1,
+		Desc: "real keys of height 4, 6, 8, 10 x 3 hash functions through XMSSVerify / GetXMSSAddressFromPK / IsValidXMSSAddress (valid signature at the first and at a late index, tampered signature, signature of a lower height's length): wrapper == core",
+		Run: func(c *drv.Ctx, lo, hi int64) {
+			for i := lo; i < hi; i++ {
+				c.At(i)
+				h, hf := wh[i/3], int(i%3)
+				k := xmss.NewXMSSFromSeed(seeds.Seed48(3+hf, c.Seed), h, xmss.HashFunction(hf), common.SHA256_2X)
+				c.Tick()
+				pk := k.GetPK()
+				msg := "wrapper heights"
+				s0, _ := k.Sign([]byte(msg))
+				k.SetIndex(uint32(1)<<h - 2)
+				s1, _ := k.Sign([]byte(msg))
+				bad := append([]byte(nil), s1...)
+				bad[len(bad)-1] ^= 1
+				short := s1[:len(s1)-64]
+				for n, sg := range [][]byte{s0, s1, bad, short} {
+					sg := sg
+					core := outcomeBool(func() bool { return xmss.Verify([]byte(msg), sg, pk) })
+					wr := outcomeBool(func() bool { return xmssjs.XMSSVerify(msg, hex.EncodeToString(sg), "0x"+hex.EncodeToString(pk[:])) })
+					c.Eval(1)
+					c.Nontrivial(1)
+					if core != wr || (n < 2) != (core == "true") {
+						c.Fail(i, "wrapper-heights:verify", map[string]any{"height": h, "hash": hf, "case": []string{"first index", "late index", "tampered", "64 bytes short"}[n], "core": core, "wrapper": wr})
+					}
+				}
+				ad := k.GetAddress()
+				wa := xmssjs.GetXMSSAddressFromPK(hex.EncodeToString(pk[:]))
+				if strings.TrimPrefix(wa, "0x") != hex.EncodeToString(ad[:]) || !xmssjs.IsValidXMSSAddress(wa) {
+					c.Fail(i, "wrapper-heights:address", map[string]any{"height": h, "hash": hf, "core": hex.EncodeToString(ad[:]), "wrapper": wa})
+				}
+				c.Outcome("compared")
+			}
+		}})
 	// heights in descending order through the XMSS wrapper; empty message with rejected signatures through the Dilithium wrapper;
 	// public keys with a non-zero reserved descriptor byte
 	ck.Domains = append(ck.Domains, &drv.Domain{Name: "wrapper-relations", Size: 3, Chunk: 1, Desc: "(0) XMSSVerify on signatures of heights 6,4,6,4 (3 hash functions) in one process; (1) DilithiumVerify with the EMPTY / nil message against valid, tampered, foreign and all-zero signatures; (2) GetXMSSAddressFromPK on public keys whose third descriptor byte is 01 / FF",
